@@ -263,6 +263,60 @@ def _cpool_step(maxhost, n_a, cancel_at, do_release, do_clean):
             P.HappyEyeballsConnection = real
 
 
+# ---------------------------------------------------------------- sessions return what they took
+def _session_exit(nconn, error, abort_first, maxhost):
+    """A real BaseSession takes nconn connections, then leaves its `with` block normally or by an exception
+    (optionally after an explicit abort()): everything must come back to the pool."""
+    from wpull.protocol.abstract.client import BaseSession
+    import wpull.network.pool as P
+
+    class _S(BaseSession):
+        pass
+    st = {'bad': None}
+    real = P.HappyEyeballsConnection
+
+    async def main():
+        cp = _mk_cpool(maxhost)
+        sess = _S(connection_pool=cp)
+        try:
+            with sess:
+                for i in range(nconn):
+                    await sess._acquire_connection('h%d.example' % i, 80)
+                if abort_first:
+                    sess.abort()
+                if error:
+                    raise Boom()
+        except Boom:
+            pass
+        me = asyncio.current_task()
+        others = [t for t in asyncio.all_tasks() if t is not me]
+        if others:
+            await asyncio.gather(*others, return_exceptions=True)
+        await cp._process_no_wait_releases()
+        for hp in cp.host_pools.values():
+            if hp.busy:
+                st['bad'] = 'connection still checked out after the session ended'
+        await cp.clean(force=True)
+        if cp.host_pools:
+            st['bad'] = st['bad'] or 'bookkeeping kept for idle host'
+    nconn = pick([0, 1, 2], nconn)
+    maxhost = pick([1, 2], maxhost - 1)
+    with nosym():
+        P.HappyEyeballsConnection = lambda address, factory, resolver, table, is_ssl=False: Conn()
+        try:
+            aio.run_choice(main, lambda n: 0, max_steps=2000)
+        except aio.Deadlock:
+            st['bad'] = 'deadlock'
+        finally:
+            P.HappyEyeballsConnection = real
+    hit('error-exit' if error else 'normal-exit')
+    return st['bad'] is None
+
+
+class Boom(Exception):
+    pass
+
+
 # ---------------------------------------------------------------- bounded schedules on the real pools
 def _run_world(chooser, use_cpool, nclients, maxc, nkeys, cancel_client, cancel_step, close_client, st):
     import wpull.network.pool as P
@@ -440,6 +494,14 @@ HARNESSES = [
              'wpull/network/pool.py:ConnectionPool.clean'],
       doc='ConnectionPool: the waiter count of a host key equals the number of clients between lookup and acquisition (also after a '
           'cancellation), all clients are served once connections come back, and clean() drops the idle key'),
+    H('session_exit', '_session_exit', 'nconn: int, error: bool, abort_first: bool, maxhost: int',
+      pre=['0 <= nconn <= 2 and 1 <= maxhost <= 2'], timeout={'quick': 120, 'thorough': 300},
+      samples=[(1, False, False, 1), (2, True, False, 1), (1, True, True, 2)], need=['error-exit', 'normal-exit'],
+      funcs=['wpull/protocol/abstract/client.py:BaseSession.__exit__', 'wpull/protocol/abstract/client.py:BaseSession.abort',
+             'wpull/protocol/abstract/client.py:BaseSession.recycle', 'wpull/protocol/abstract/client.py:BaseSession._acquire_connection',
+             'wpull/network/pool.py:ConnectionPool.no_wait_release'],
+      doc='a real BaseSession that took 0..2 connections and leaves its with-block normally, by an exception or after abort() has '
+          'nothing checked out afterwards and the idle host bookkeeping is dropped'),
     H('schedules_host', '_schedule_host',
       'choices: List[int], nclients: int, maxc: int, cancel_client: int, cancel_step: int, close_client: int',
       pre={'quick': ['len(choices) == 30 and nclients == 2 and 1 <= maxc <= 2',
